@@ -45,6 +45,8 @@ def slices(quick):
             ("pw", dict(Contexts="CtxCS", Pieces="PiecesAll", PwMax=3), None, None),
             # user names x keyword case x tight/loose '='
             ("users", dict(Cases="CasesAll", Users="UsersAll", EGaps="GapsTight", LGaps="GapsTight", AGaps="GapsTight"), None, None),
+            # user names with '=' inside x every gap between the name, '=' and the literal
+            ("equsers", dict(Contexts="CtxCS", Users="UsersEq", EGaps="GapsAll0", LGaps="GapsTight"), None, None),
             # the ordinary gaps
             ("ogaps", dict(Contexts="CtxCS", OGaps="GapsAll"), None, None),
             # several statements in one text, tight and loose ';'
@@ -58,6 +60,7 @@ def slices(quick):
         ("pw", dict(Pieces="PiecesAll", PwMax=3), None, None),
         ("pw4", dict(Contexts="CtxCS", Pieces="PiecesCore", PwMax=4), None, None),
         ("users", dict(Cases="CasesAll", Users="UsersAll", EGaps="GapsAll0", LGaps="GapsTight", AGaps="GapsTight"), None, None),
+        ("equsers", dict(Contexts="CtxCS", Users="UsersEq", OGaps="GapsSome", EGaps="GapsAll0", LGaps="GapsSome0"), None, None),
         ("ogaps", dict(Contexts="CtxCS", OGaps="GapsAll"), None, None),
         ("ogapsA", dict(Contexts="CtxA", OGaps="GapsSome", AGaps="GapsSome0"), None, None),
         ("multi", dict(Contexts="CtxMulti", S1Gaps="GapsTight", S2Gaps="GapsSemi2", LGaps="GapsTight"), None, None),
